@@ -413,6 +413,7 @@ def gap_optional(a, b):
 
 WS_ATOMS = [" ", " ", " ", "\t", "\n", "\n", "\r\n", "\r", "\f", "\v", "  ", "\n  ",
             " \n", "\t \t"]
+LINE_ATOMS = [" ", " ", "\t", "\n", "\n", "\r\n", "  ", "\n  ", " \n", "\n\n"]
 COMMENT_BODIES = ["", " c ", "*", " * ", "/", " a/b ", "#", " # x ", " \"q\" ", " 'q ",
                   " line1\n line2 ", "**", " = ", " END ", " (1, 2) ", "x*y", " /x ",
                   "<u>", ";"]
@@ -429,10 +430,11 @@ def gen_sep(rng, dialect, optional, style, prev_tok, next_tok, hazards=True):
         return ""
     parts = []
     n = rng.choice((1, 1, 1, 2, 3))
+    atoms = LINE_ATOMS if style == "lines" else WS_ATOMS
     for i in range(n):
         r = rng.random()
         if r < 0.70:
-            parts.append(rng.choice(WS_ATOMS))
+            parts.append(rng.choice(atoms))
         elif r < 0.92 or dialect not in HASH_COMMENTS:
             parts.append("/*" + rng.choice(COMMENT_BODIES) + "*/")
         else:
@@ -452,12 +454,12 @@ def gen_sep(rng, dialect, optional, style, prev_tok, next_tok, hazards=True):
 
 def gen_layout(rng, tokens, dialect, style="wild"):
     seps = [""]
-    if style == "wild" and rng.random() < 0.5:
+    if style != "plain" and rng.random() < 0.5:
         seps[0] = gen_sep(rng, dialect, True, style, None, tokens[0])
     for a, b in zip(tokens, tokens[1:]):
         seps.append(gen_sep(rng, dialect, gap_optional(a, b), style, a, b))
     tail = ""
-    if style == "wild":
+    if style != "plain":
         tail = gen_sep(rng, dialect, True, style, tokens[-1], None)
     else:
         tail = "\n"
@@ -471,6 +473,17 @@ def render(tokens, seps):
         out.append(t.text)
         out.append(s)
     return "".join(out)
+
+
+def render_with_offsets(tokens, seps):
+    """text and the character offset of every token"""
+    out, offs, n = [seps[0]], [], len(seps[0])
+    for t, s in zip(tokens, seps[1:]):
+        offs.append(n)
+        out.append(t.text)
+        out.append(s)
+        n += len(t.text) + len(s)
+    return "".join(out), offs
 
 
 def plain_layout(tokens):
